@@ -20,6 +20,13 @@ type MCall struct {
 	NodeName     string
 	FunctionName string
 	Type         string // how the front-end classified the call site (lambda, field, self, chain ...): no graph clause depends on it
+	// Position of the call site; several recorded calls may share one start position (the creator of an
+	// anonymous implementation of a nested type is recorded once per identifier of the created name)
+	Position MPos
+}
+
+type MPos struct {
+	StartLine, StartLinePosition, StopLine, StopLinePosition int
 }
 
 type MFunc struct {
@@ -82,6 +89,8 @@ type CGCliStep struct {
 	// ViaLink: the model file is named through a symbolic link and "..": -d link/../viaK.json with
 	// link -> sub/deeper, which the kernel resolves to sub/viaK.json (a lexically cleaned path would not)
 	ViaLink bool `json:"via_link,omitempty"`
+	// ViaPipe: the model file named with -d is a named pipe that delivers the model's bytes
+	ViaPipe bool `json:"via_pipe,omitempty"`
 }
 
 type CGScenario struct {
@@ -158,6 +167,9 @@ func genModel(t *tape.Tape, thorough bool) []MClass {
 	pkgs := []string{"p", "q.r", "com.x"}
 	if t.Bool(1, 4) {
 		pkgs = []string{"p", "", "com.x"} // some classes live in the default package
+	} else if t.Bool(1, 5) {
+		// project packages that merely look like library packages
+		pkgs = [][]string{{"javabook.ch1", "javax.ext", "p"}, {"java.compat", "org.junit.rules", "sun.tools"}, {"kotlin.demo", "android.app", "lang"}}[t.Pick(3)]
 	}
 	clsNames := []string{"A", "B", "C", "D", "E", "F"}
 	maxClasses, maxMethods := 4, 4
@@ -235,6 +247,8 @@ func genModel(t *tape.Tape, thorough bool) []MClass {
 	shape := t.Pick(4)     // 0,1 random; 2 chain (long unfoldings with shared tails); 3 layered
 	foreignCls := []string{"A", "B", "C", "D", "E", "F"}
 	idx := 0
+	positions := t.Bool(1, 3) // call sites carry positions (real models do), some of them coinciding
+	line := 10
 	for ci := range model {
 		for fi := range model[ci].Functions {
 			idx++
@@ -289,6 +303,15 @@ func genModel(t *tape.Tape, thorough bool) []MClass {
 					}
 				}
 				call.Type = []string{"", "", "lambda", "field", "self", "chain", "super", "same package", "CreatorClass"}[t.Pick(9)]
+				if positions {
+					calls := model[ci].Functions[fi].FunctionCalls
+					if len(calls) > 0 && t.Bool(1, 3) {
+						call.Position = calls[len(calls)-1].Position // same call-site position as the previous call
+					} else {
+						line++
+						call.Position = MPos{StartLine: line, StartLinePosition: 8 + t.Pick(3)*4, StopLine: line, StopLinePosition: 30}
+					}
+				}
 				model[ci].Functions[fi].FunctionCalls = append(model[ci].Functions[fi].FunctionCalls, call)
 			}
 		}
@@ -308,9 +331,19 @@ func declaredMethods(model []MClass) []string {
 
 func pickRoot(t *tape.Tape, model []MClass) string {
 	decl := declaredMethods(model)
-	switch k := t.Pick(10); {
+	switch k := t.Pick(12); {
 	case k == 9:
 		return "no.Such.method" // absent root
+	case k == 10:
+		// a suffix of a declared name (class.method or the bare method name): not a method's full
+		// name, so as absent as any other unknown root - however many declared names end in it
+		d := decl[t.Pick(len(decl))]
+		parts := strings.Split(d, ".")
+		n := 1 + t.Pick(2)
+		if n >= len(parts) {
+			n = 1
+		}
+		return strings.Join(parts[len(parts)-n:], ".")
 	default:
 		return decl[t.Pick(len(decl))]
 	}
@@ -403,6 +436,8 @@ func genCGScenario(t *tape.Tape, tier string) *CGScenario {
 				} else if t.Bool(1, 4) {
 					st.ViaLink = true
 					st.Sparse = false
+				} else if t.Bool(1, 4) {
+					st.ViaPipe = true
 				}
 				steps = append(steps, st)
 			}
@@ -929,6 +964,13 @@ func runCG(id string, ctx *sim.RunCtx, data json.RawMessage) (*sim.Outcome, erro
 					file = fmt.Sprintf("link/../via%d.json", s.Model)
 					out.Faults["path-through-symlink-and-dotdot"]++
 				}
+				var fifo interface{}
+				if s.ViaPipe && !s.UseDefault && !s.ViaLink {
+					from := file
+					file = fmt.Sprintf("model%d.pipe", len(proc.Ops))
+					fifo = map[string]string{"path": file, "from": from}
+					out.Faults["model-file-is-a-pipe"]++
+				}
 				hist = append(hist, "cli-"+s.Cmd)
 				if s.Cmd == "call" {
 					// every flag is given explicitly: cobra keeps flag values between in-process runs
@@ -936,13 +978,13 @@ func runCG(id string, ctx *sim.RunCtx, data json.RawMessage) (*sim.Outcome, erro
 					if s.UseDefault {
 						args = []string{"call", "-c", s.Root, "-d", "coca_reporter/deps.json", fmt.Sprintf("-l=%v", s.Lookup), "-r", ""}
 					}
-					proc.Ops = append(proc.Ops, sim.Op{Op: "cli", Args: map[string]interface{}{"args": args, "read": []string{"coca_reporter/call.dot"}}})
+					proc.Ops = append(proc.Ops, sim.Op{Op: "cli", Args: map[string]interface{}{"args": args, "read": []string{"coca_reporter/call.dot"}, "fifo": fifo}})
 				} else {
 					args := []string{"rcall", "-c", s.Root, "-d", file, "-r", ""}
 					if s.UseDefault {
 						args = []string{"rcall", "-c", s.Root, "-d", "coca_reporter/deps.json", "-r", ""}
 					}
-					proc.Ops = append(proc.Ops, sim.Op{Op: "cli", Args: map[string]interface{}{"args": args, "read": []string{"coca_reporter/rcall.dot", "coca_reporter/rcallmap.json"}}})
+					proc.Ops = append(proc.Ops, sim.Op{Op: "cli", Args: map[string]interface{}{"args": args, "read": []string{"coca_reporter/rcall.dot", "coca_reporter/rcallmap.json"}, "fifo": fifo}})
 				}
 			}
 			hist = append(hist, "|")
